@@ -7,10 +7,9 @@
 //	firstx …the same…                                                               -> row=… err=… reqs=<request log>
 //
 // `first` is compared with the SPECIFICATION (first row of the whole result / ErrNotFound only if the result has
-// no row; Exec: outcome of the first fetch) and is emitted only for scripts whose first page (after UNPREPARED
-// answers) is not an EMPTY page with has_more_pages — exactly the predicate `First.FirstPageDecides` that
-// C15_query_scan_partial assumes (proposed finding KF-C15-4); `firstx` (every scenario; model mirrors the code)
-// adds the node's request log: nothing beyond the first fetch may be asked for.
+// no row; Exec: outcome of the first fetch) for EVERY script — the code as repaired for KF-C15-4
+// (props/C15.fix-4.diff; theorem C15_query_scan); `firstx` (model-vs-code) adds the node's request log: nothing
+// beyond the first non-empty page may be asked for.
 package main
 
 import (
@@ -35,7 +34,7 @@ func (s firstScen) String(op string) string {
 	return fmt.Sprintf("%s v%d %s %s %d %s %s", op, s.ver, s.consumer, s.prefetch, s.pageSize, s.kind, strings.Join(sc, ";"))
 }
 
-// firstPageDecides mirrors First.FirstPageDecides (which scenarios are compared with the specification)
+// firstPageDecides: false for scripts whose first page (after UNPREPARED answers) is EMPTY with has_more_pages (the inputs of KF-C15-4); used for the case classes only
 func firstPageDecides(script []reply) bool {
 	for _, r := range script {
 		if r.fail == "u" {
@@ -192,7 +191,9 @@ func firstTier(r *vh.Rng, out *vh.Out, tier string) map[string]interface{} {
 	spec := 0
 	for i, j := range jobs {
 		out.Case(j.sc.String("firstx"), res[i], "x/"+j.cls, true)
-		if j.sc.consumer == "exec" || firstPageDecides(j.sc.script) {
+		// (code as repaired for KF-C15-4: every scenario is compared with the specification; `cls` still says
+		// which ones have an EMPTY first page with has_more_pages)
+		{
 			short := res[i]
 			if k := strings.Index(short, " reqs="); k >= 0 {
 				short = short[:k]
